@@ -560,6 +560,154 @@ def _in_comprehension(name_node: ast.Name, root: ast.AST) -> bool:
     return False
 
 
+_SENTINEL_NAMES = {"zero", "one", "None", "PENDING", "object", "matmul", "mul", "True", "False", "One", "Zero"}
+
+
+def _canonical_comparisons(tree: ast.Module) -> None:
+    """`zero is X`, `None is not X`, `0 == n`: the constant / sentinel goes to the right-hand side, where the code base (and hence the
+    rules) writes it.  Only single comparisons with ==, !=, is, is not, whose left operand is a constant or a bare sentinel name and
+    whose right operand is not: swapping the operands of these operators never changes the value."""
+    def sentinel(e):
+        if isinstance(e, ast.UnaryOp) and isinstance(e.op, ast.USub):
+            e = e.operand
+        return isinstance(e, ast.Constant) or (isinstance(e, ast.Name) and e.id in _SENTINEL_NAMES) or \
+            (isinstance(e, ast.Attribute) and isinstance(e.value, ast.Name) and e.attr in ("masked",) and e.value.id in ("ma",)) or \
+            (isinstance(e, ast.Attribute) and norm(e) in ("np.ma.masked", "sympy.S.Zero", "sympy.S.One", "S.Zero", "S.One"))
+    for n in ast.walk(tree):
+        if isinstance(n, ast.Compare) and len(n.ops) == 1 and isinstance(n.ops[0], (ast.Eq, ast.NotEq, ast.Is, ast.IsNot)) \
+                and sentinel(n.left) and not sentinel(n.comparators[0]):
+            n.left, n.comparators[0] = n.comparators[0], n.left
+            n.left._parent, n.comparators[0]._parent = n, n  # type: ignore[attr-defined]
+
+
+def _fold_fill_loops(tree: ast.Module) -> int:
+    """`acc = []` directly followed by `for T in IT: [if C:] acc.append(E)` reads `acc = [E for T in IT if C]`; the same for
+    `acc = {}` + `acc[K] = V`.  Only when the loop does nothing else, the accumulator does not occur in IT / E / C / K, and the loop
+    variables are not used after the loop (in a comprehension they would not exist there).  The value of `acc` is the same; what
+    changes is that the loop variables stay local, which the last condition makes unobservable."""
+    n_folded = 0
+    for host in ast.walk(tree):
+        for field in ("body", "orelse", "finalbody"):
+            blk = getattr(host, field, None)
+            if not (isinstance(blk, list) and blk and isinstance(blk[0], ast.stmt)):
+                continue
+            i = 0
+            while i + 1 < len(blk):
+                a, loop = blk[i], blk[i + 1]
+                i += 1
+                if not (isinstance(a, ast.Assign) and len(a.targets) == 1 and isinstance(a.targets[0], ast.Name) and isinstance(loop, ast.For)
+                        and not loop.orelse and len(loop.body) == 1):
+                    continue
+                acc = a.targets[0].id
+                kind = "list" if (isinstance(a.value, ast.List) and not a.value.elts) else ("dict" if (isinstance(a.value, ast.Dict) and not a.value.keys) else None)
+                if kind is None:
+                    continue
+                body, conds = loop.body[0], []
+                while isinstance(body, ast.If) and not body.orelse and len(body.body) == 1:
+                    conds.append(body.test)
+                    body = body.body[0]
+                if kind == "list" and isinstance(body, ast.Expr) and isinstance(body.value, ast.Call) and isinstance(body.value.func, ast.Attribute) \
+                        and body.value.func.attr == "append" and isinstance(body.value.func.value, ast.Name) and body.value.func.value.id == acc \
+                        and len(body.value.args) == 1 and not body.value.keywords and not isinstance(body.value.args[0], ast.Starred):
+                    parts = [body.value.args[0]]
+                    comp = ast.ListComp(elt=body.value.args[0], generators=[ast.comprehension(target=loop.target, iter=loop.iter, ifs=conds, is_async=0)])
+                elif kind == "dict" and isinstance(body, ast.Assign) and len(body.targets) == 1 and isinstance(body.targets[0], ast.Subscript) \
+                        and isinstance(body.targets[0].value, ast.Name) and body.targets[0].value.id == acc:
+                    parts = [body.targets[0].slice, body.value]
+                    comp = ast.DictComp(key=body.targets[0].slice, value=body.value,
+                                        generators=[ast.comprehension(target=loop.target, iter=loop.iter, ifs=conds, is_async=0)])
+                else:
+                    continue
+                mentions = lambda e, nm: any(isinstance(x, ast.Name) and x.id == nm for x in ast.walk(e))
+                if any(mentions(e, acc) for e in parts + conds + [loop.iter]):
+                    continue
+                if any(isinstance(x, (ast.NamedExpr, ast.Yield, ast.YieldFrom, ast.Await)) for e in parts + conds + [loop.iter] for x in ast.walk(e)):
+                    continue
+                loop_vars = {x.id for x in ast.walk(loop.target) if isinstance(x, ast.Name)}
+                if not all(isinstance(x, (ast.Name, ast.Tuple, ast.List)) for x in ast.walk(loop.target) if not isinstance(x, (ast.Store, ast.Load))):
+                    continue
+                # the enclosing function: are the loop variables read anywhere outside this loop?
+                fn = host
+                while fn is not None and not isinstance(fn, (ast.FunctionDef, ast.AsyncFunctionDef, ast.Module)):
+                    fn = getattr(fn, "_parent", None)
+                inside = {id(x) for x in ast.walk(loop)}
+                if fn is None or any(isinstance(x, ast.Name) and x.id in loop_vars and id(x) not in inside for x in ast.walk(fn)):
+                    continue
+                new = ast.copy_location(ast.Assign(targets=a.targets, value=ast.copy_location(comp, a.value)), a)
+                ast.fix_missing_locations(new)
+                blk[i - 1:i + 1] = [new]
+                n_folded += 1
+                i -= 1
+    if n_folded:
+        for node in ast.walk(tree):
+            for child in ast.iter_child_nodes(node):
+                child._parent = node  # type: ignore[attr-defined]
+    return n_folded
+
+
+def _fold_conditional_assignments(tree: ast.Module) -> int:
+    """`if c: x = A` / `else: x = B` (nothing else in either arm, the same plain name) reads `x = A if c else B`."""
+    n_folded = 0
+    for host in ast.walk(tree):
+        for field in ("body", "orelse", "finalbody"):
+            blk = getattr(host, field, None)
+            if not (isinstance(blk, list) and blk and isinstance(blk[0], ast.stmt)):
+                continue
+            for i, s_ in enumerate(blk):
+                if isinstance(s_, ast.If) and len(s_.body) == 1 and len(s_.orelse) == 1 and all(
+                        isinstance(b_, ast.Assign) and len(b_.targets) == 1 and isinstance(b_.targets[0], ast.Name) for b_ in (s_.body[0], s_.orelse[0])) \
+                        and s_.body[0].targets[0].id == s_.orelse[0].targets[0].id \
+                        and not any(isinstance(x, ast.NamedExpr) for x in ast.walk(s_)):
+                    new = ast.Assign(targets=[ast.Name(id=s_.body[0].targets[0].id, ctx=ast.Store())],
+                                     value=ast.IfExp(test=s_.test, body=s_.body[0].value, orelse=s_.orelse[0].value))
+                    blk[i] = ast.fix_missing_locations(ast.copy_location(new, s_))
+                    n_folded += 1
+    if n_folded:
+        for node in ast.walk(tree):
+            for child in ast.iter_child_nodes(node):
+                child._parent = node  # type: ignore[attr-defined]
+    return n_folded
+
+
+def _canonical_call_style(tree: ast.Module, all_defs: dict) -> None:
+    """Calls of the package's own module-level functions in the argument style of the reference tree: an argument that the call passes
+    by keyword although it is the next positional parameter (`f(a, b=b)` for `def f(a, b)`) is read positionally when the reference
+    spelling of the code does so -- approximated by: leading parameters without a default are positional, parameters with a default
+    are keywords.  Binding is unchanged either way (same parameter, same value, same evaluation order of the arguments as written is
+    NOT guaranteed by Python only when keywords are reordered; here the relative order of the argument expressions is kept)."""
+    for n in ast.walk(tree):
+        if not (isinstance(n, ast.Call) and isinstance(n.func, ast.Name) and n.func.id in all_defs):
+            continue
+        f = all_defs[n.func.id]
+        if f.args.vararg or f.args.posonlyargs or f.args.kwarg or any(isinstance(a, ast.Starred) for a in n.args) or any(k.arg is None for k in n.keywords):
+            continue
+        params = [a.arg for a in f.args.args]
+        n_required = len(params) - len(f.args.defaults)
+        if len(n.args) > len(params):
+            continue
+        given = dict(zip(params, n.args))
+        order = list(given)
+        clash = False
+        for k in n.keywords:
+            if k.arg in given:
+                clash = True
+            given[k.arg] = k.value
+            order.append(k.arg)
+        if clash:
+            continue
+        # the arguments as written must already be in signature order for the rewrite to keep their evaluation order
+        sig = [p for p in params + [a.arg for a in f.args.kwonlyargs] if p in given]
+        if [p for p in order if p in sig] != sig or set(order) - set(sig):
+            continue
+        new_args, new_kw = [], []
+        for i, p in enumerate(sig):
+            if p in params and params.index(p) == len(new_args) and params.index(p) < n_required and not new_kw:
+                new_args.append(given[p])
+            else:
+                new_kw.append(ast.keyword(arg=p, value=given[p]))
+        n.args, n.keywords = new_args, new_kw
+
+
 def _canonical_index_parameter(tree: ast.Module) -> None:
     """The element-evaluation closures of the package have the signature `(*index)`, and the rules speak of `index`.  A closure
     or lambda nested in a function whose only parameter is a vararg with another name gets it renamed to `index` in the loaded
@@ -614,13 +762,28 @@ class Repo:
             for node in ast.walk(tree):
                 for child in ast.iter_child_nodes(node):
                     child._parent = node  # type: ignore[attr-defined]
+            _fold_fill_loops(tree)
             _inline_generators(tree)
             _inline_context_managers(tree)
             # _inline_unknown_helpers(tree) is NOT applied globally: seeing through every helper the rules do not name weakens the
             # flow-sensitive resolution inside the hosts (tried: a memo-key variant went unnoticed); rules call it on a copy
             # of the function they study when they need it (`expanded_function`)
             _canonical_index_parameter(tree)
+            _canonical_comparisons(tree)
             self.trees[name] = tree
+        if os.environ.get("SV_CALL_STYLE", "1") == "1":
+            defs_by_name: dict = {}
+            for t_ in self.trees.values():
+                for n_ in t_.body:
+                    if isinstance(n_, ast.FunctionDef):
+                        defs_by_name.setdefault(n_.name, []).append(n_)
+            unique = {k: v[0] for k, v in defs_by_name.items() if len(v) == 1}
+            for name, t_ in self.trees.items():
+                if name != "algorithms":
+                    _canonical_call_style(t_, unique)
+                    for node in ast.walk(t_):
+                        for child in ast.iter_child_nodes(node):
+                            child._parent = node  # type: ignore[attr-defined]
         # every other .py in the package (not tests) is parsed too so that
         # who-may-write rules see the whole package
         self.extra: dict[str, ast.Module] = {}
